@@ -19,7 +19,7 @@ pub struct Budget {
 pub fn budget(prop: &str, tier: &str) -> Budget {
     let quick = tier != "thorough";
     let (q, t): (u64, u64) = match prop {
-        "C04" => (150, 4_000),
+        "C04" => (800, 30_000),
         "C10" | "C19" => (1_500, 60_000),
         "C11" => (1_600, 80_000),
         "C20" => (3_000, 200_000),
@@ -132,6 +132,11 @@ impl Agg {
             }
         }
     }
+}
+
+/// Where new replay files go: /verif/replays, or VERIF_REPLAY_DIR (used when a seeded change is being tried).
+fn replay_dir() -> std::path::PathBuf {
+    std::env::var("VERIF_REPLAY_DIR").map(std::path::PathBuf::from).unwrap_or_else(|_| verif_root().join("replays"))
 }
 
 struct Known {
@@ -325,8 +330,8 @@ fn finish(prop: &str, tier: &str, base_seed: u64, agg: Agg, started: Instant) ->
         }
         reported += 1;
         // minimise in a fresh process; it re-verifies the replay before reporting
-        let replay = root.join("replays").join(format!("{prop}-{seed}-{}.json", sanitize(&format!("{oracle}-{tag}"))));
-        let _ = std::fs::create_dir_all(root.join("replays"));
+        let replay = replay_dir().join(format!("{prop}-{seed}-{}.json", sanitize(&format!("{oracle}-{tag}"))));
+        let _ = std::fs::create_dir_all(replay_dir());
         let status = Command::new(exe()).arg("minimize").arg(prop).arg(seed.to_string()).arg(oracle).arg(tag).arg(&replay).stderr(Stdio::inherit()).stdout(Stdio::inherit()).status();
         let ok = status.map(|s| s.success()).unwrap_or(false);
         println!("# violation: oracle={oracle} tag={tag} seeds={} first_seed={seed}: {}", items.len(), first["detail"].as_str().unwrap_or(""));
@@ -340,8 +345,8 @@ fn finish(prop: &str, tier: &str, base_seed: u64, agg: Agg, started: Instant) ->
         exit = 1;
     }
     for seed in &agg.hangs {
-        let replay = root.join("replays").join(format!("{prop}-{seed}-hang.json"));
-        let _ = std::fs::create_dir_all(root.join("replays"));
+        let replay = replay_dir().join(format!("{prop}-{seed}-hang.json"));
+        let _ = std::fs::create_dir_all(replay_dir());
         let _ = Command::new(exe()).arg("dump-case").arg(prop).arg(seed.to_string()).arg(&replay).status();
         let fake = json!({"oracle": "bounded_liveness", "tag": "hang"});
         if let Some(f) = known.matches(prop, &fake) {
